@@ -31,3 +31,19 @@ Example C16_instance :
   fsem (form_max vs (comp_undir vs E) cp) (fun v => match v with 0 => true | _ => false end) = false /\
   fsem (form_all (comp_undir vs E)) (fun v => match v with 0 => true | _ => false end) = true.
 Proof. repeat split; vm_compute; reflexivity. Qed.
+
+(** the copy naming of the (repaired) generator meets the two hypotheses of C16_max_undirected: the prefix
+    "v_" extended by '_' until no vertex name starts with it gives copies that are new names and pairwise different *)
+From Rsbdd Require Import Gen.Prefix.
+Theorem C16_copies_fresh vs u v : In u vs -> In v vs -> copy_prefix vs ++ u <> v.
+Proof. exact (copies_fresh vs u v). Qed.
+Theorem C16_copies_injective vs u v : copy_prefix vs ++ u = copy_prefix vs ++ v -> u = v.
+Proof. exact (copies_injective vs u v). Qed.
+Theorem C16_max_directed vs E cp s :
+  (forall a b, In a vs -> In b vs -> cp a = cp b -> a = b) -> (forall a b, In a vs -> In b vs -> cp a <> b) ->
+  (fsem (form_max vs (comp_dir vs E) cp) s = true <->
+   clique vs (adj_dir E) s /\ forall t, clique vs (adj_dir E) t -> (cnt vs t <= cnt vs s)%Z).
+Proof.
+  intros Hinj Hfresh. apply (C16_max vs (adj_dir E) (comp_dir vs E)); auto.
+  - apply comp_dir_sound. - apply comp_dir_complete.
+Qed.
